@@ -210,6 +210,21 @@ Fixpoint annotate (g : guard) (n : nat) (tr : list ev) : list (ev * bool * nat) 
 Definition unguarded_logs (tr : list ev) : nat :=
   length (filter (fun e => match e with (EA CWal _, false, _) => true | _ => false end) (annotate g0 0 tr)).
 
+(* the outer-lock hypothesis of the theorems (`well_locked`: stores and log records of a database only under its lock
+   held for writing, or under the exclusive store lock) read off a trace: log records written with neither held *)
+Record ohold := { o_dbw : nat; o_sw : nat }.
+Fixpoint logs_outside_outer (h : ohold) (tr : list ev) : nat :=
+  match tr with
+  | [] => 0%nat
+  | EA CDb true :: r => logs_outside_outer {| o_dbw := S (o_dbw h); o_sw := o_sw h |} r
+  | EA CStore true :: r => logs_outside_outer {| o_dbw := o_dbw h; o_sw := S (o_sw h) |} r
+  | ER CDb :: r => logs_outside_outer {| o_dbw := pred (o_dbw h); o_sw := o_sw h |} r
+  | ER CStore :: r => logs_outside_outer {| o_dbw := o_dbw h; o_sw := pred (o_sw h) |} r
+  | EA CWal _ :: r => ((if Nat.eqb (o_dbw h) 0 && Nat.eqb (o_sw h) 0 then 1 else 0) + logs_outside_outer h r)%nat
+  | _ :: r => logs_outside_outer h r
+  end.
+Definition outer_violations (tr : list ev) : nat := logs_outside_outer {| o_dbw := 0; o_sw := 0 |} tr.
+
 (* pass 2, from the end: the program of the thread at lock-release granularity.  Segment i (from 0) holds what the
    thread does between its i-th and (i+1)-th release; `cur` is the segment being built (in reverse order of time the
    list is consumed, so actions are consed in front), `pend` the records waiting for the place of their store. *)
